@@ -23,7 +23,9 @@ impl Add for Matrix {
 
     fn add(self, rhs: Matrix) -> Self::Output {
         assert_eq!(self.n, rhs.n, "dimension mismatch in Matrix + Matrix");
+        assert_eq!(self.m, rhs.m, "dimension mismatch in Matrix + Matrix");
         let n = self.n;
+        let m = self.m;
         match (self, rhs) {
             (
                 Matrix {
@@ -66,7 +68,7 @@ impl Add for Matrix {
                 let data = a.into_iter().zip(b).map(|(x, y)| x + y).collect();
                 Matrix {
                     n,
-                    m: n,
+                    m,
                     data,
                     storage: MatrixStorage::Full,
                 }
